@@ -2,7 +2,7 @@
 import os
 
 from . import core
-from .rules import stdio, cert, mark, exact, optstore, inval, idx, atomic, own, tokens, idxclass, copy, pair, structfree, buf, div, counter, sentinel, appendinit, verdict, basismap, zerotol, escape, lenclass, djsym, ndet, useb4check, norms, opencheck, shell, esolver, errlost, rescan, certdep, neverset, fmt, defaults, scratch, fullscan, slotleak, floatidx, sensemap, trunc, vtypezero, allockind, intdiv, strscan, localfield, rawidx, argcap, staleptr, condalloc, lpstate, vstattype, alphabet, outleak
+from .rules import stdio, cert, mark, exact, optstore, inval, idx, atomic, own, tokens, idxclass, copy, pair, structfree, buf, div, counter, sentinel, appendinit, verdict, basismap, zerotol, escape, lenclass, djsym, ndet, useb4check, norms, opencheck, shell, esolver, errlost, rescan, certdep, neverset, fmt, defaults, scratch, fullscan, slotleak, floatidx, sensemap, trunc, vtypezero, allockind, intdiv, strscan, localfield, rawidx, argcap, staleptr, condalloc, lpstate, vstattype, alphabet, outleak, fieldleak
 from .effects import Effects
 
 FIX = os.path.join(os.path.dirname(os.path.abspath(__file__)), "fixtures")
@@ -355,7 +355,7 @@ PROPS = {
     },
     "C18": {
         "rules": [lambda prog, tier: pair.run(prog, heap=True), lambda prog, tier: structfree.run(prog), lambda prog, tier: structfree.run_nodefree(prog),
-                  lambda prog, tier: slotleak.run(prog), lambda prog, tier: outleak.run(prog, floor=6)],
+                  lambda prog, tier: slotleak.run(prog), lambda prog, tier: outleak.run(prog, floor=6), lambda prog, tier: fieldleak.run(prog, shared_eff(prog))],
         "technique": "resource typestate dataflow per function on clang::CFG (set-of-tuples, return-code and parameter-fact correlation, "
                      "allocation-fault and noreturn edges excluded); destructor coverage by ownership inference from release sites",
         "explanation": "Decides two structural clauses of C18 on all paths, including every parse-error and rejected-argument exit: (R-PAIR) "
@@ -740,7 +740,9 @@ _ADD = {
                          "summaries + holds/empty typestate of the receiving local with remembered count conditions",
             "explanation": " (R-OUTLEAK) a local that holds a block received through an allocating out-parameter (directly, through a record field the "
                            "routine parks the parameter in, or through a callee) is released or handed on before its address is passed to such a "
-                           "parameter again (the singular-column lists across refactorisation rounds)."},
+                           "parameter again (the singular-column lists across refactorisation rounds). (R-FIELDLEAK) a fresh block is not stored into an "
+                           "owning field on a path on which the function has used the block the field holds without releasing it (grow / compact "
+                           "routines written by hand)."},
     "C19": {"technique": "; status-value enumeration through switch / if / conditional-expression forms; printf-format census; resource typestate on "
                          "esolver's main; exit-condition analysis of the print loops",
             "explanation": " (R-FMT) no row / column name is used as a format string; (R-PAIR on esolver) the solution file is closed on every path; "
